@@ -312,6 +312,19 @@ func H_C08_legacy() {
 		Sig:     vx.BytesN("sig", 1),
 		Clock:   entry.NewLamportClock(vx.BytesN("clock.id", 1), vx.Int("clock.time")),
 	}
+	if vx.Choice("legacyLink", 2) == 1 {
+		// what legacy logs really link to: a CIDv0 (bare sha2-256 multihash of a dag-pb block)
+		digest := make([]byte, 32)
+		for i := range digest {
+			digest[i] = byte(5*i + 2)
+		}
+		m, err := mh.Encode(digest, mh.SHA2_256)
+		if err != nil {
+			panic(err)
+		}
+		e.Next = append(e.Next, cid.NewCidV0(m))
+		vx.Cover("legacy-v0-link")
+	}
 	h, err := entry.ToMultihashWithIO(ctx, e, api, nil, io)
 	vx.Assert("C08", err == nil && h.Defined(), "writing a legacy entry succeeds")
 	if err != nil {
